@@ -32,7 +32,8 @@ RULE = ('Part A (git): the robot password is a Hypothesis-generated sentinel '
         'printing `fatal: unable to access \'<credentialed URL>\'`, hang '
         'until the timeout}) at DEBUG and at INFO level (quick tier: one '
         'command per distinct command template; thorough: every command '
-        'index). Part B (GitHub): password and GitHub-App authentication '
+        'index in the first history of each shard, one per template in '
+        'the two others). Part B (GitHub): password and GitHub-App authentication '
         'flows of the real github client against a scripted '
         'requests.Session, every endpoint answered 200/401/403/404/500 in '
         'turn. Sinks searched for the sentinel in raw, quote_plus and quote '
@@ -346,7 +347,10 @@ def git_part(ctx, shard, acc):
                 seen_t = set()
                 for ci, c in enumerate(cmds):
                     t = template_of(c, url)
-                    if tier == 'thorough' or t not in seen_t:
+                    # thorough: every command of the job in the first
+                    # history of the shard, one per template afterwards
+                    if (tier == 'thorough' and nonlocal_counter[0] == 1) \
+                            or t not in seen_t:
                         seen_t.add(t)
                         chosen.append((ci, t))
                 acc.cls('git_jobs_faulted')
